@@ -14,6 +14,7 @@ import (
 
 func init() {
 	factGens = append(factGens, oracleFacts)
+	methods["Int"]["UTC"] = callRule{"$r", "Int"} // time.Time.UTC(): same instant
 }
 
 func parseRepo(repo, file string) (*ast.File, *token.FileSet, error) {
@@ -104,6 +105,158 @@ func oracleFacts(repo string, emit func(name, leanDef string, err error)) {
 		}
 		used := guards >= 1 && guards == calls // every call sits in a guarding condition
 		emit("oracleSigResultUsed", fmt.Sprintf("/-- app/ante/cosmos/sigverify.go, oracle branch: every VerifySignature call is the negated condition of an `if` that returns an error (false = result dropped or not guarding a return) -/\ndef oracleSigResultUsed : Bool := %v\n\n/-- the guarding condition, as written -/\ndef oracleSigGuardCond : String := %q", used, guardText), nil)
+	}()
+	// 1b. the oracle branches of SetPubKeyDecorator and SigVerificationDecorator must tie the number
+	// of SignerInfos (public keys / enumerated signatures) to the number of signers: an `if` whose
+	// condition is a `||`-chain of `len(x) != len(signers)` comparisons and whose body returns an
+	// error, where `signers` is assigned from GetSigners() in that branch (F-10c).
+	func() {
+		f, _, err := parseRepo(repo, "app/ante/cosmos/sigverify.go")
+		if err != nil {
+			emit("oracleSignerCountChecked", "", err)
+			return
+		}
+		guards := func(fn string) (map[string]bool, error) {
+			fd := findFunc(f, fn)
+			if fd == nil {
+				return nil, fmt.Errorf("%s not found", fn)
+			}
+			got := map[string]bool{}
+			seenBranch := false
+			ast.Inspect(fd.Body, func(n ast.Node) bool {
+				ifs, ok := n.(*ast.IfStmt)
+				if !ok || !strings.Contains(exprText(ifs.Cond), "IsOracleCreatePriceTx") {
+					return true
+				}
+				seenBranch = true
+				signerVars := map[string]bool{}
+				ast.Inspect(ifs.Body, func(m ast.Node) bool {
+					if as, ok := m.(*ast.AssignStmt); ok && len(as.Lhs) == 1 && len(as.Rhs) == 1 {
+						if c, ok := as.Rhs[0].(*ast.CallExpr); ok && strings.HasSuffix(exprText(c.Fun), ".GetSigners") {
+							signerVars[exprText(as.Lhs[0])] = true
+						}
+					}
+					return true
+				})
+				var disj func(e ast.Expr, out *[]ast.Expr) bool
+				disj = func(e ast.Expr, out *[]ast.Expr) bool {
+					if be, ok := e.(*ast.BinaryExpr); ok && be.Op == token.LOR {
+						return disj(be.X, out) && disj(be.Y, out)
+					}
+					*out = append(*out, e)
+					return true
+				}
+				lenOf := func(e ast.Expr) string {
+					if c, ok := e.(*ast.CallExpr); ok && exprText(c.Fun) == "len" && len(c.Args) == 1 {
+						return exprText(c.Args[0])
+					}
+					return ""
+				}
+				ast.Inspect(ifs.Body, func(m ast.Node) bool {
+					g, ok := m.(*ast.IfStmt)
+					if !ok || g.Init != nil || len(g.Body.List) == 0 {
+						return true
+					}
+					ret, ok := g.Body.List[0].(*ast.ReturnStmt)
+					if !ok || len(ret.Results) != 2 || exprText(ret.Results[1]) == "nil" || exprText(ret.Results[1]) == "err" {
+						return true
+					}
+					var ds []ast.Expr
+					disj(g.Cond, &ds)
+					var names []string
+					for _, d := range ds {
+						be, ok := d.(*ast.BinaryExpr)
+						if !ok || be.Op != token.NEQ {
+							return true
+						}
+						a, b := lenOf(be.X), lenOf(be.Y)
+						if a == "" || !signerVars[b] {
+							return true
+						}
+						names = append(names, a)
+					}
+					for _, nme := range names {
+						got[nme] = true
+					}
+					return true
+				})
+				return false
+			})
+			if !seenBranch {
+				return nil, fmt.Errorf("%s: oracle branch not found", fn)
+			}
+			return got, nil
+		}
+		g1, e1 := guards("SetPubKeyDecorator.AnteHandle")
+		g2, e2 := guards("SigVerificationDecorator.AnteHandle")
+		if e1 != nil || e2 != nil {
+			emit("oracleSignerCountChecked", "", fmt.Errorf("%v %v", e1, e2))
+			return
+		}
+		ok := g1["pubKeys"] && g2["pubKeys"] && g2["sigs"]
+		emit("oracleSignerCountChecked", fmt.Sprintf("/-- app/ante/cosmos/sigverify.go, oracle branches: SetPubKeyDecorator rejects unless len(pubKeys) == len(signers), SigVerificationDecorator rejects unless len(sigs) == len(signers) and len(pubKeys) == len(signers) -/\ndef oracleSignerCountChecked : Bool := %v", ok), nil)
+	}()
+	// 1c. the timestamp comparison of checkTimestamp as a kernel: `now := …` and the
+	// `now.Add(maxFutureOffset).Before(t)` condition, translated by the GoLite translator (fails
+	// closed on anything outside the whitelist, e.g. rounding/truncating the block time).
+	func() {
+		name := "oracleTimestampTooFarAhead"
+		f, _, err := parseRepo(repo, "x/oracle/keeper/msg_server_create_price.go")
+		if err != nil {
+			emit(name, "", err)
+			return
+		}
+		fd := findFunc(f, "checkTimestamp")
+		if fd == nil {
+			emit(name, "", fmt.Errorf("checkTimestamp not found"))
+			return
+		}
+		var nowRHS, cond ast.Expr
+		ast.Inspect(fd.Body, func(n ast.Node) bool {
+			if as, ok := n.(*ast.AssignStmt); ok && len(as.Lhs) == 1 && exprText(as.Lhs[0]) == "now" && len(as.Rhs) == 1 {
+				if nowRHS != nil {
+					nowRHS = &ast.BadExpr{} // assigned twice: not the transcribed shape
+				} else {
+					nowRHS = as.Rhs[0]
+				}
+			}
+			if ifs, ok := n.(*ast.IfStmt); ok && ifs.Init == nil && strings.Contains(exprText(ifs.Cond), ".Before") {
+				if len(ifs.Body.List) == 1 {
+					if r, ok := ifs.Body.List[0].(*ast.ReturnStmt); ok && len(r.Results) == 1 && exprText(r.Results[0]) != "nil" {
+						cond = ifs.Cond
+					}
+				}
+			}
+			return true
+		})
+		if nowRHS == nil || cond == nil {
+			emit(name, "", fmt.Errorf("checkTimestamp: `now := …` / `if ….Before(t) { return err }` not found"))
+			return
+		}
+		def, terr := func() (out string, err error) {
+			defer func() {
+				if r := recover(); r != nil {
+					if te, ok := r.(trErr); ok {
+						err = fmt.Errorf("checkTimestamp: %s", te.msg)
+						return
+					}
+					panic(r)
+				}
+			}()
+			k := &Kernel{Name: name, Calls: map[string]callRule{"ctx.BlockTime": {"blockTime", "Int"}}}
+			t := &tr{k: k, ty: map[string]string{"maxFutureOffset": "Int", "t": "Int"}, rename: map[string]string{}}
+			nowS, nty := t.expr(nowRHS)
+			if nty != "Int" {
+				failf("now has type %s", nty)
+			}
+			t.ty["now"] = "Int"
+			cS, cty := t.expr(cond)
+			if cty != "Bool" {
+				failf("condition has type %s", cty)
+			}
+			return fmt.Sprintf("/-- x/oracle/keeper/msg_server_create_price.go: checkTimestamp — `now` and the rejection condition (all times in ns) -/\ndef %s (blockTime maxFutureOffset t : Int) : Bool :=\n  let now := %s\n  %s", name, nowS, cS), nil
+		}()
+		emit(name, def, terr)
 	}()
 	// 2. constants: TxSizeLimit, maxFutureOffset seconds, default MaxNonce/thresholds
 	func() {
